@@ -19,10 +19,7 @@ structure Out where
   m : M
   crash : Option Name := none
 
-def typeMismatch (m : M) (v : Val) : M :=
-  match v with
-  | .nil => m.log Diag.runtime_TypeMissmatchWeak
-  | _ => m.log Diag.runtime_TypeMissmatch
+def M.setTop (m : M) (f : Frame) : M := { m with ctx := m.ctx.setTop f }
 
 /-- set the variables of the current frame -/
 def M.setVars (m : M) (vars : List (Name × Val)) : M :=
@@ -38,43 +35,93 @@ def M.popV (m : M) : Option Val × M :=
 def M.pushV (m : M) (v : Val) : M := { m with ctx := m.ctx.pushV v }
 def M.clearV (m : M) : M := { m with ctx := m.ctx.clearV }
 
-/-- "the array changed size" warning and the re-read size -/
-def resize (m : M) (arr size : Nat) : M × Nat :=
-  let n := (m.arr arr).length
-  if size != n then (m.log Diag.runtime_ArraySizeChanged, n) else (m, size)
+/-! ### behaviours
 
-/-- `enact` of an exit behaviour on the current frame. Returns the machine, the behaviour's new
-    private state, the result, and whether `vector::at` threw. -/
-def enact (b : Beh) (m : M) : M × Beh × BRes × Bool :=
+A behaviour's `enact` first (for most behaviours) pops the value its frame's code left, then
+*decides* — a pure function of its private state, the popped value and the heap — on a list of
+actions that only concern the current frame's region and variables. `runAct` is the only place where
+a behaviour's effect reaches the machine. -/
+
+inductive TAct where
+  | log (code : Nat)
+  | pushV (v : Val)
+  /-- allocate a fresh array and push a reference to it -/
+  | pushNewArr (xs : List Val)
+  | clearV
+  /-- `frame.clear_value_scope()` followed by the given bindings -/
+  | setVars (vs : List (Name × Val))
+  /-- `frame[name]` on the non-const frame: creates a nil entry when missing -/
+  | touchVar (n : Name)
+  /-- `context.suspend(ms)` -/
+  | suspend (ms : Nat)
+
+def runAct (a : TAct) (m : M) : M :=
+  match a with
+  | .log code => m.log code
+  | .pushV v => m.pushV v
+  | .pushNewArr xs => let (m', id) := m.alloc xs; m'.pushV (.ref id)
+  | .clearV => m.clearV
+  | .setVars vs => m.setVars vs
+  | .touchVar n =>
+    match m.top? with
+    | some f => m.setTop { f with vars := varsTouch f.vars n }
+    | none => m
+  | .suspend ms => { m with ctx := { m.ctx with suspended := true, wakeup := m.now + ms } }
+
+def runActs : List TAct → M → M
+  | [], m => m
+  | a :: as, m => runActs as (runAct a m)
+
+def mismatchAct (v : Val) : TAct :=
+  match v with
+  | .nil => .log Diag.runtime_TypeMissmatchWeak
+  | _ => .log Diag.runtime_TypeMissmatch
+
+/-- "the array changed size" warning and the re-read size -/
+def resizeActs (m : M) (arr size : Nat) : List TAct × Nat :=
+  let n := (m.arr arr).length
+  if size != n then ([.log Diag.runtime_ArraySizeChanged], n) else ([], size)
+
+/-- does this behaviour start by popping the value its code left? -/
+def needsPop : Beh → Bool
+  | .count _ _ _ _ | .select _ _ _ _ | .apply _ _ _ _ | .findIf _ _ _ | .isNil | .waitUntil _ => true
+  | .whileB inCode _ _ _ => !inCode
+  | _ => false
+
+/-- the continuation of an iteration over `arr`: bind `_x` (and more) to element `idx'` and restart,
+    or report that `vector::at` throws because the array shrank below the index -/
+def iterNext (m : M) (arr idx' : Nat) (extra : List (Name × Val)) (b' : Beh) : List TAct × Beh × BRes × Bool :=
+  let xs := m.arr arr
+  if idx' ≥ xs.length then ([.clearV, .setVars []], b', .ok, true)
+  else ([.clearV, .setVars (extra ++ [(n!"_x", nth xs idx')])], b', .seekStart, false)
+
+/-- the decision part of `enact`: actions, new private state, result, "an exception escaped" -/
+def behDecide (b : Beh) (res : Option Val) (m : M) : List TAct × Beh × BRes × Bool :=
   match b with
   | .count arr idx size cnt =>
-    let (res, m1) := m.popV
-    let (m2, cnt') := match res with
-      | some (.bool t) => (m1, if t then cnt + 1 else cnt)
-      | some v => (typeMismatch m1 v, cnt)
-      | none => (m1.log Diag.runtime_CallstackFoundNoValue, cnt)
-    let (m3, size') := resize m2 arr size
+    let (a1, cnt') : List TAct × Nat := match res with
+      | some (.bool t) => ([], if t then cnt + 1 else cnt)
+      | some v => ([mismatchAct v], cnt)
+      | none => ([.log Diag.runtime_CallstackFoundNoValue], cnt)
+    let (a2, size') := resizeActs m arr size
     let idx' := idx + 1
-    if idx' == size' then (m3.pushV (num cnt'), .count arr idx' size' cnt', .ok, false)
+    if idx' == size' then (a1 ++ a2 ++ [.pushV (num cnt')], .count arr idx' size' cnt', .ok, false)
     else
-      let xs := m3.arr arr
-      if idx' ≥ xs.length then (m3.clearV.setVars [], .count arr idx' size' cnt', .ok, true)
-      else ((m3.clearV).setVars [(n!"_x", nth xs idx')], .count arr idx' size' cnt', .seekStart, false)
+      let (a3, b', r, t) := iterNext m arr idx' [] (.count arr idx' size' cnt')
+      (a1 ++ a2 ++ a3, b', r, t)
   | .whileB inCode loops cond code =>
     if !inCode then
-      let (res, m1) := m.popV
       match res with
       | some (.bool true) =>
-        let m2 := m1.clearV.setVars []
-        if code.isEmpty then (m2, b, .seekStart, false)
-        else (m2, .whileB true loops cond code, .exchange code, false)
-      | some (.bool false) => (m1, b, .ok, false)
-      | some v => (typeMismatch m1 v, b, .ok, false)
-      | none => (m1.log Diag.runtime_CallstackFoundNoValue, b, .ok, false)
+        if code.isEmpty then ([.clearV, .setVars []], b, .seekStart, false)
+        else ([.clearV, .setVars []], .whileB true loops cond code, .exchange code, false)
+      | some (.bool false) => ([], b, .ok, false)
+      | some v => ([mismatchAct v], b, .ok, false)
+      | none => ([.log Diag.runtime_CallstackFoundNoValue], b, .ok, false)
     else
       let loops' := if !m.ctx.canSuspend then loops + 1 else loops
-      if !m.ctx.canSuspend && m.maxLoops > 0 && loops' ≥ m.maxLoops then (m, .whileB true loops' cond code, .ok, false)
-      else (m.clearV.setVars [], .whileB false loops' cond code, .exchange cond, false)
+      if !m.ctx.canSuspend && m.maxLoops > 0 && loops' ≥ m.maxLoops then ([], .whileB true loops' cond code, .ok, false)
+      else ([.clearV, .setVars []], .whileB false loops' cond code, .exchange cond, false)
   | .forB var to step =>
     let cur := match m.top? with | some f => (varsGet f.vars var).getD .nil | none => .nil
     match cur with
@@ -82,98 +129,106 @@ def enact (b : Beh) (m : M) : M × Beh × BRes × Bool :=
       let updated := Dec.add v step
       let stepNeg := step.neg && step.mant != 0
       let stop := if !stepNeg then Dec.lt to updated else Dec.lt updated to
-      if stop then (m, b, .ok, false)
-      else (m.clearV.setVars [(lower var, .num updated)], b, .seekStart, false)
-    | _ => (m.log Diag.runtime_ForStepVariableTypeMissmatch, b, .ok, false)
+      if stop then ([.touchVar var], b, .ok, false)
+      else ([.clearV, .setVars [(lower var, .num updated)]], b, .seekStart, false)
+    | _ => ([.touchVar var, .log Diag.runtime_ForStepVariableTypeMissmatch], b, .ok, false)
   | .forEach arr idx size =>
-    let (m1, size') := resize m arr size
+    let (a2, size') := resizeActs m arr size
     let idx' := idx + 1
-    if idx' == size' then (m1, .forEach arr idx' size', .ok, false)
+    if idx' == size' then (a2, .forEach arr idx' size', .ok, false)
     else
-      let xs := m1.arr arr
-      if idx' ≥ xs.length then (m1.clearV.setVars [], .forEach arr idx' size', .ok, true)
-      else (m1.clearV.setVars [(n!"_foreachindex", num idx'), (n!"_x", nth xs idx')], .forEach arr idx' size', .seekStart, false)
+      let (a3, b', r, t) := iterNext m arr idx' [(n!"_foreachindex", num idx')] (.forEach arr idx' size')
+      (a2 ++ a3, b', r, t)
   | .select arr out idx size =>
-    let (res, m1) := m.popV
-    let xs0 := m1.arr arr
-    let (m2, out', thrown) := match res with
+    let xs0 := m.arr arr
+    let (a1, out', thrown) : List TAct × List Val × Bool := match res with
       | some (.bool t) =>
-        if t then (if idx ≥ xs0.length then (m1, out, true) else (m1, out ++ [nth xs0 idx], false))
-        else (m1, out, false)
-      | some v => (typeMismatch m1 v, out, false)
-      | none => (m1.log Diag.runtime_CallstackFoundNoValue, out, false)
-    if thrown then (m2, b, .ok, true) else
-    let (m3, size') := resize m2 arr size
+        if t then (if idx ≥ xs0.length then ([], out, true) else ([], out ++ [nth xs0 idx], false))
+        else ([], out, false)
+      | some v => ([mismatchAct v], out, false)
+      | none => ([.log Diag.runtime_CallstackFoundNoValue], out, false)
+    if thrown then (a1, b, .ok, true) else
+    let (a2, size') := resizeActs m arr size
     let idx' := idx + 1
-    if idx' == size' then
-      let (m4, id) := m3.alloc out'
-      (m4.pushV (.ref id), .select arr out' idx' size', .ok, false)
+    if idx' == size' then (a1 ++ a2 ++ [.pushNewArr out'], .select arr out' idx' size', .ok, false)
     else
-      let xs := m3.arr arr
-      if idx' ≥ xs.length then (m3.clearV.setVars [], .select arr out' idx' size', .ok, true)
-      else (m3.clearV.setVars [(n!"_x", nth xs idx')], .select arr out' idx' size', .seekStart, false)
+      let (a3, b', r, t) := iterNext m arr idx' [] (.select arr out' idx' size')
+      (a1 ++ a2 ++ a3, b', r, t)
   | .apply arr out idx size =>
-    let (res, m1) := m.popV
-    let (m2, out') := match res with
-      | some v => (m1, out ++ [v])
-      | none => (m1.log Diag.runtime_CallstackFoundNoValue, out)
-    let (m3, size') := resize m2 arr size
+    let (a1, out') : List TAct × List Val := match res with
+      | some v => ([], out ++ [v])
+      | none => ([.log Diag.runtime_CallstackFoundNoValue], out)
+    let (a2, size') := resizeActs m arr size
     let idx' := idx + 1
-    if idx' == size' then
-      let (m4, id) := m3.alloc out'
-      (m4.pushV (.ref id), .apply arr out' idx' size', .ok, false)
+    if idx' == size' then (a1 ++ a2 ++ [.pushNewArr out'], .apply arr out' idx' size', .ok, false)
     else
-      let xs := m3.arr arr
-      if idx' ≥ xs.length then (m3.clearV.setVars [], .apply arr out' idx' size', .ok, true)
-      else (m3.clearV.setVars [(n!"_x", nth xs idx')], .apply arr out' idx' size', .seekStart, false)
+      let (a3, b', r, t) := iterNext m arr idx' [] (.apply arr out' idx' size')
+      (a1 ++ a2 ++ a3, b', r, t)
   | .findIf arr idx size =>
-    let (res, m1) := m.popV
     match res with
-    | some (.bool true) => (m1.pushV (num idx), b, .ok, false)
+    | some (.bool true) => ([.pushV (num idx)], b, .ok, false)
     | _ =>
-      let m2 := match res with
-        | some (.bool _) => m1
-        | some _ => m1.log Diag.runtime_TypeMissmatch
-        | none => m1.log Diag.runtime_CallstackFoundNoValue
-      let (m3, size') := resize m2 arr size
+      let a1 : List TAct := match res with
+        | some (.bool _) => []
+        | some _ => [.log Diag.runtime_TypeMissmatch]
+        | none => [.log Diag.runtime_CallstackFoundNoValue]
+      let (a2, size') := resizeActs m arr size
       let idx' := idx + 1
-      if idx' == size' then (m3.pushV (.num (Dec.ofInt (-1))), .findIf arr idx' size', .ok, false)
+      if idx' == size' then (a1 ++ a2 ++ [.pushV (.num (Dec.ofInt (-1)))], .findIf arr idx' size', .ok, false)
       else
-        let xs := m3.arr arr
-        if idx' ≥ xs.length then (m3.clearV.setVars [], .findIf arr idx' size', .ok, true)
-        else (m3.clearV.setVars [(n!"_x", nth xs idx')], .findIf arr idx' size', .seekStart, false)
+        let (a3, b', r, t) := iterNext m arr idx' [] (.findIf arr idx' size')
+        (a1 ++ a2 ++ a3, b', r, t)
   | .isNil =>
-    let (res, m1) := m.popV
     match res with
-    | some v => (m1.pushV (.bool (match v with | .nil => true | _ => false)), b, .ok, false)
-    | none => (m1.log Diag.runtime_CallstackFoundNoValue, b, .ok, false)
+    | some v => ([.pushV (.bool (match v with | .nil => true | _ => false))], b, .ok, false)
+    | none => ([.log Diag.runtime_CallstackFoundNoValue], b, .ok, false)
   | .switchB switched =>
     if !switched then
-      -- `frame[magic]` on the non-const frame creates the entry when it is missing
-      let m1 := match m.top? with | some f => m.setTop { f with vars := varsTouch f.vars switchMagic } | none => m
-      let cur := match m1.top? with | some f => (varsGet f.vars switchMagic).getD .nil | none => .nil
+      let cur := match m.top? with | some f => (varsGet f.vars switchMagic).getD .nil | none => .nil
       match cur with
-      | .sw _ _ _ tgt => if tgt.isEmpty then (m1, .switchB true, .ok, false) else (m1, .switchB true, .exchange tgt, false)
-      | _ => (m1, .switchB true, .fail, false)
-    else (m, b, .ok, false)
+      | .sw _ _ _ tgt =>
+        if tgt.isEmpty then ([.touchVar switchMagic], .switchB true, .ok, false)
+        else ([.touchVar switchMagic], .switchB true, .exchange tgt, false)
+      | _ => ([.touchVar switchMagic], .switchB true, .fail, false)
+    else ([], b, .ok, false)
   | .waitUntil count =>
     let count' := count + 1
-    let (res, m1) := m.popV
-    let cont (mm : M) : M × Beh × BRes × Bool :=
-      let c := { mm.ctx with suspended := true, wakeup := mm.now + 10 }
-      (({ mm with ctx := c }).clearV.setVars [], .waitUntil count', .seekStart, false)
     match res with
-    | some (.bool _) => (m1, .waitUntil count', .ok, false)
-    | some _ => cont (m1.log Diag.runtime_TypeMissmatch)
+    | some (.bool _) => ([], .waitUntil count', .ok, false)
+    | some _ => ([.log Diag.runtime_TypeMissmatch, .suspend 10, .clearV, .setVars []], .waitUntil count', .seekStart, false)
     | none =>
-      if count' > 30000 && m1.ctx.canSuspend then (m1.log Diag.runtime_WaitUntilMaxLoopReached, .waitUntil count', .ok, false)
-      else cont (m1.log Diag.runtime_CallstackFoundNoValue)
-  | .catchB _ => (m, b, .ok, false)
-  | .exceptB _ _ => (m, b, .ok, false)
+      if count' > 30000 && m.ctx.canSuspend then ([.log Diag.runtime_WaitUntilMaxLoopReached], .waitUntil count', .ok, false)
+      else ([.log Diag.runtime_CallstackFoundNoValue, .suspend 10, .clearV, .setVars []], .waitUntil count', .seekStart, false)
+  | .catchB _ => ([], b, .ok, false)
+  | .exceptB _ _ => ([], b, .ok, false)
+
+/-- `enact` of an exit behaviour on the current frame. Returns the machine, the behaviour's new
+    private state, the result, and whether `vector::at` threw. -/
+def enact (b : Beh) (m : M) : M × Beh × BRes × Bool :=
+  let pr : Option Val × M := if needsPop b then m.popV else (none, m)
+  let d := behDecide b pr.1 pr.2
+  (runActs d.1 pr.2, d.2.1, d.2.2.1, d.2.2.2)
 
 /-- result of `frame::next(runtime)` -/
 inductive NextRes where
   | ok | done | hang | crash
+
+/-- `frame::next()`: advance the position; `done` when it reaches (or already is at) the end -/
+def advance (f : Frame) : Frame × NextRes :=
+  if f.pc == f.code.length + 1 then (f, .done)
+  else ({ f with pc := f.pc + 1 }, if f.pc + 1 == f.code.length + 1 then .done else .ok)
+
+/-- apply the result of `enact` to the current frame; `none` = `goto start` -/
+def settle (res : NextRes) (e : M × Beh × BRes × Bool) : M × Option NextRes :=
+  if e.2.2.2 then (e.1, some .crash) else
+  match e.1.top? with
+  | none => (e.1, some res)
+  | some f2 =>
+    match e.2.2.1 with
+    | .seekEnd => (e.1.setTop { f2 with exitB := some e.2.1, pc := f2.code.length + 1 }, some .done)
+    | .seekStart => ((e.1.setTop { f2 with exitB := some e.2.1, pc := 0 }).clearV, none)
+    | .exchange code => (e.1.setTop { f2 with exitB := some e.2.1, code := code, pc := 0 }, none)
+    | .ok | .fail => (e.1.setTop { f2 with exitB := some e.2.1 }, some res)
 
 /-- `frame::next(runtime)` on the current frame (fuel bounds the `goto start` re-entries) -/
 def frameNext : Nat → M → M × NextRes
@@ -182,30 +237,16 @@ def frameNext : Nat → M → M × NextRes
     match m.top? with
     | none => (m, .done)
     | some f =>
-      let size := f.code.length
-      -- frame::next()
-      let (pc', res) : Nat × NextRes :=
-        if f.pc == size + 1 then (f.pc, .done)
-        else (f.pc + 1, if f.pc + 1 == size + 1 then .done else .ok)
-      let f1 := { f with pc := pc' }
-      let m1 := m.setTop f1
-      if pc' == size + 1 && !f1.die then
-        match f1.exitB with
-        | none => (m1, res)
+      let a := advance f
+      let m1 := m.setTop a.1
+      if a.1.pc == a.1.code.length + 1 && !a.1.die then
+        match a.1.exitB with
+        | none => (m1, a.2)
         | some b =>
-          let (m2, b', r, thrown) := enact b m1
-          if thrown then (m2, .crash) else
-          -- the behaviour may have changed the frame's variables; re-read it
-          match m2.top? with
-          | none => (m2, res)
-          | some f2 =>
-            let f3 := { f2 with exitB := some b' }
-            match r with
-            | .seekEnd => (m2.setTop { f3 with pc := f3.code.length + 1 }, .done)
-            | .seekStart => frameNext fuel ((m2.setTop { f3 with pc := 0 }).clearV)
-            | .exchange code => frameNext fuel (m2.setTop { f3 with code := code, pc := 0 })
-            | .ok | .fail => (m2.setTop f3, res)
-      else (m1, res)
+          match settle a.2 (enact b m1) with
+          | (m3, some r) => (m3, r)
+          | (m3, none) => frameNext fuel m3
+      else (m1, a.2)
 
 /-! ### instructions -/
 
@@ -218,7 +259,7 @@ def execInstr (i : Instr) (m : M) : M :=
   | .endStatement => m.clearV
   | .callNular n =>
     match nularOp n m with
-    | some (m', v) => m'.pushV v
+    | some res => finishOp m res
     | none => m.log Diag.runtime_UnknownInputTypeCombinationNular
   | .callUnary n =>
     let (r, m1) := m.popV
@@ -227,7 +268,7 @@ def execInstr (i : Instr) (m : M) : M :=
     | some .nil => m1.log Diag.runtime_NilValueFoundForRightArgumentWeak
     | some rv =>
       match unaryOp n rv m1 with
-      | some (m', v) => m'.pushV v
+      | some res => finishOp m1 res
       | none => m1.log Diag.runtime_UnknownInputTypeCombinationUnary
   | .callBinary n _ =>
     let (r, m1) := m.popV
@@ -241,7 +282,7 @@ def execInstr (i : Instr) (m : M) : M :=
       | some .nil => m2.log Diag.runtime_NilValueFoundForRightArgumentWeak
       | some lv =>
         match binaryOp n lv rv m2 with
-        | some (m', v) => m'.pushV v
+        | some res => finishOp m2 res
         | none => m2.log Diag.runtime_UnknownInputTypeCombinationBinary
   | .assignTo n =>
     let (v, m1) := m.popV
@@ -298,6 +339,31 @@ inductive StepRes where
   | ok | empty | runtimeError | hang | crash
 deriving DecidableEq, Repr
 
+/-- the error-flag handling of `execute_do` after an instruction has been executed -/
+def afterInstr (m2 : M) : M × StepRes :=
+  if !m2.err then ({ m2 with msgs := [] }, .ok)
+  else
+    let m3 := { m2 with msgs := [] }
+    match findRecover m3.ctx.frames 0 with
+    | some idx =>
+      -- the stack trace (payload: the error messages) is handed to the nearest handler frame
+      let m4 := (m3.alloc (m2.msgs.map (fun _ => Val.other n!"msg"))).1
+      let id := m3.heap.length
+      let c5 := m4.ctx.pushV (.strace (.ref id))
+      let c6 := c5.dropFrames idx
+      let c7 := (recoverAt c6 m4.err 0).1
+      ({ m4 with ctx := c7, err := false }, .ok)
+    | none => ({ (m3.log Diag.runtime_Stacktrace) with err := false }, .runtimeError)
+
+/-- fetch and execute the instruction the current frame points at -/
+def fetchExec (m1 : M) : M × StepRes :=
+  match m1.top? with
+  | none => (m1, .empty)
+  | some f =>
+    match f.code[f.pc - 1]? with
+    | none => (m1, .ok)
+    | some i => afterInstr (execInstr i m1)
+
 /-- `execute_do(runtime, 1)`: any number of frame completions, then one instruction (or `empty`). -/
 def step : Nat → M → M × StepRes
   | 0, m => (m, .hang)
@@ -306,33 +372,21 @@ def step : Nat → M → M × StepRes
     else if m.ctx.suspended then (m, .ok)
     else if m.ctx.frames.isEmpty then (m, .empty)
     else
-      let nframes := m.ctx.frames.length
       match frameNext (fuel + 1) m with
       | (m1, .hang) => (m1, .hang)
       | (m1, .crash) => (m1, .crash)
-      | (m1, .done) =>
-        if m1.ctx.frames.length == nframes then step fuel { m1 with ctx := m1.ctx.complete }
-        else (m1, .ok)
-      | (m1, .ok) =>
-        match m1.top? with
-        | none => (m1, .empty)
-        | some f =>
-          match f.code[f.pc - 1]? with
-          | none => (m1, .ok)
-          | some i =>
-            let m2 := execInstr i m1
-            if !m2.err then ({ m2 with msgs := [] }, .ok)
-            else
-              let m3 := { m2 with msgs := [] }
-              match findRecover m3.ctx.frames 0 with
-              | some idx =>
-                let (m4, id) := m3.alloc (m2.msgs.map (fun _ => Val.other n!"msg"))
-                let m5 := m4.pushV (.strace (.ref id))
-                let m6 := { m5 with ctx := { m5.ctx with frames := m5.ctx.frames.drop idx } }
-                let (m7, _) := recoverAt m6 0
-                ({ m7 with err := false }, .ok)
-              | none =>
-                ({ (m3.log Diag.runtime_Stacktrace) with err := false }, .runtimeError)
+      | (m1, r) =>
+        if m1.err then
+          -- an exit behaviour raised an error: handled right away, like an error of an instruction
+          match afterInstr m1 with
+          | (m2, .ok) => step fuel m2
+          | (m2, r2) => (m2, r2)
+        else
+          match r with
+          | .done =>
+            if m1.ctx.frames.length == m.ctx.frames.length then step fuel { m1 with ctx := m1.ctx.complete }
+            else (m1, .ok)
+          | _ => fetchExec m1
 
 /-- run until the context is empty / an error / a step limit -/
 def runSteps : Nat → M → M × StepRes × Nat
